@@ -5,6 +5,10 @@ from . import facts as facts_mod
 
 FIELD = "remaining_depth"
 TOP = "T"
+# The counter is a budget counting down to 0 on the reviewed tree.  A tree that counts the *depth* up from 0 to a limit
+# constant instead (same limit, same error) is read with the signs exchanged: `+= 1` takes a level, the exhaustion test
+# compares with the limit.  Set by check_depth from how Parser values are constructed.
+STATE = {"up": False, "limits": set()}
 
 
 def is_depth_place(pl):
@@ -121,6 +125,8 @@ def depth_effects(fn):
                 a, b2 = rv["a"], rv["b"]
                 if a.get("c") in ("copy", "move") and is_depth_place(a["pl"]) and common.const_int(b2) == 1:
                     k = -1 if rv["op"].startswith("Sub") else 1
+            if STATE["up"] and k != TOP:
+                k = -k
             eff.setdefault(bi, []).append((k, s.get("line")))
     return eff
 
@@ -288,6 +294,8 @@ def _store_kind(fn, defs, s):
         a, b2 = rv["a"], rv["b"]
         if a.get("c") in ("copy", "move") and is_depth_place(a["pl"]) and common.const_int(b2) == 1:
             k = -1 if rv["op"].startswith("Sub") else 1
+    if STATE["up"] and k != TOP:
+        k = -k
     return k
 
 
@@ -347,7 +355,16 @@ def zero_tests(fn):
         def ev(op, x, y):
             return {"Eq": x == y, "Ne": x != y, "Lt": x < y, "Le": x <= y, "Gt": x > y, "Ge": x >= y}.get(op)
         ka, kb = common.const_int(a), common.const_int(b2)
-        if is_depth(a) and kb is not None and 0 <= kb <= 2 and ev(opn, 0, kb) is not None:
+        if STATE["up"]:
+            # `depth == LIMIT` (or `>=`): true for an exhausted budget, false far below the limit
+            lim, side = (kb, "a") if (is_depth(a) and kb is not None) else ((ka, "b") if (is_depth(b2) and ka is not None) else (None, None))
+            if lim is not None and 2 < lim <= 255:
+                z = ev(opn, lim, lim) if side == "a" else ev(opn, lim, lim)
+                big = ev(opn, 0, lim) if side == "a" else ev(opn, lim, 0)
+                if z is not None and big is not None and z != big:
+                    zero_when = (int(z), int(big))
+                    STATE["limits"].add(lim)
+        elif is_depth(a) and kb is not None and 0 <= kb <= 2 and ev(opn, 0, kb) is not None:
             z, big = ev(opn, 0, kb), ev(opn, 200, kb)
             if z != big:
                 zero_when = (int(z), int(big))
@@ -446,7 +463,33 @@ def evaluate_budget(crate, comp):
     return deltas, at_one, rets, failed
 
 
+def _counts_up(crate):
+    """Every construction of a Parser sets the counter to the constant 0: it counts the depth up."""
+    a = crate.adts.get("parse::Parser")
+    if not a:
+        return False
+    names = [f["name"] for f in a["variants"][0]["fields"]]
+    if FIELD not in names:
+        return False
+    i = names.index(FIELD)
+    vals = []
+    for fn in crate.fns:
+        for b in fn.blocks:
+            for st in b["stmts"]:
+                if st["k"] == "assign" and st["rv"]["k"] == "agg" and st["rv"].get("adt") == "parse::Parser":
+                    op = st["rv"]["fields"][i]
+                    v = common.const_int(op)
+                    if v is None and op.get("c") == "const" and "newtype_int" in op:
+                        v = int(op["newtype_int"])
+                    vals.append(v)
+    return bool(vals) and all(v == 0 for v in vals)
+
+
 def check_depth(ctx, crate, r_cycle, r_bal):
+    STATE["up"] = _counts_up(crate)
+    STATE["limits"] = set()
+    if STATE["up"]:
+        r_cycle.note("the counter starts at 0 on this tree: it is read as a depth counted up to a limit constant")
     edges = local_call_graph(crate)
     owners = sorted({f.path for f in crate.fns})
     succ = lambda o: sorted({e[3] for e in edges.get(o, [])})
@@ -702,6 +745,16 @@ def check_depth(ctx, crate, r_cycle, r_bal):
                     v = common.const_int(s["rv"]["fields"][i])
                     if v is None and s["rv"]["fields"][i].get("c") == "const" and "newtype_int" in s["rv"]["fields"][i]:
                         v = int(s["rv"]["fields"][i]["newtype_int"])       # the counter wrapped in a newtype
+                    if STATE["up"] and v == 0:
+                        lims = sorted(STATE["limits"])
+                        if lims and min(lims) >= 101:
+                            r_bal.ok("%s: Parser constructed at depth 0; the limit tested is %s (>= 101)" % (fn.path, lims), fn, s.get("line"))
+                        else:
+                            r_bal.violation(fn.path, "limit-constant",
+                                            "%s constructs a Parser at depth 0, but the limit the depth is compared with is %s; "
+                                            "the documented behaviour requires at least 100 levels" % (fn.path, lims or "not a constant"),
+                                            fn.loc(s.get("line")))
+                        continue
                     if v is None or v < 101 or v > 255:
                         r_bal.violation(fn.path, "limit-constant",
                                         "%s constructs a Parser with remaining_depth %r; the documented behaviour "
